@@ -21,7 +21,8 @@ PROPERTY = "C20"
 LEVEL = "exploration"
 RULE = ("generated directories: 2..3 species (start .itp, end .gro, end .itp; end size != start size), a system file with "
         "interleaved instances, and distractors (foreign extensions, files of a species absent from the system, a "
-        "start-only solvent topology, a species lacking its end coordinates, second valid candidates, the system file "
+        "start-only solvent topology, a species lacking its end coordinates, second valid candidates, one coordinate file "
+        "holding an end molecule of every species, the system file "
         "itself); plus the shipped BMIM/BF4 files. (cli) main() in-process with --mol / --auto / --exclude / --scale / "
         "-o absolute, relative to another working directory, or defaulted, the explicit triples and the --auto listing "
         "spelled as absolute, relative, ./relative or non-normalised paths independently, compared byte-for-byte with the library "
@@ -92,9 +93,16 @@ def directory_case(draw):
         if k not in seq:
             seq.append(k)
     distractors = draw(st.lists(st.sampled_from(["foreign", "absent", "solvent", "system-file", "copy-gro",
-                                                 "copy-itp", "missing-coords", "same-basename-gro", "same-basename-itp"]),
+                                                 "copy-itp", "missing-coords", "same-basename-gro", "same-basename-itp",
+                                                 "shared-end-gro"]),
                                 min_size=0, max_size=5, unique=True))
-    return {"species": species, "sequence": seq, "distractors": distractors,
+    shared_only = []
+    if draw(st.integers(0, 3)) == 0:
+        # the end coordinates of some species exist only inside a file shared by all species
+        if "shared-end-gro" not in distractors:
+            distractors = distractors + ["shared-end-gro"]
+        shared_only = draw(st.lists(st.integers(0, nsp - 1), min_size=1, max_size=nsp, unique=True))
+    return {"species": species, "sequence": seq, "distractors": distractors, "shared_only": shared_only,
             "solvent_in_system": draw(st.booleans()),
             "dup_of": draw(st.integers(0, nsp - 1)), "missing_of": draw(st.integers(0, nsp - 1)),
             "known": draw(st.lists(st.integers(0, nsp - 1), max_size=nsp - 1, unique=True)),
@@ -150,6 +158,7 @@ def build_directory(case):
     candidates = {nm: {"top_CG": [t[0]], "coor_AA": [t[1]], "top_AA": [t[2]]} for nm, t in triples.items()}
     incomplete = set()
     ndis = 0
+    shared = None
     for dname in case["distractors"]:
         ndis += 1
         if dname == "foreign":
@@ -202,6 +211,18 @@ def build_directory(case):
                 write_itp(p, case["species"][case["dup_of"]]["end"])
                 candidates[nm]["top_AA"].append(p)
             listing.append(p)
+        elif dname == "shared-end-gro":
+            # one coordinate file holding one end-resolution molecule of every species: a valid candidate for each of them
+            recs = []
+            for k, sp in enumerate(case["species"]):
+                for r in spec_records(sp["end"], first_atomid=len(recs) + 1, resids=[k + 1]):
+                    recs.append(r)
+            p = os.path.join(inputs, ("AA_all.gro" if case["seed"] % 3 else "zz_all_AA.gro"))
+            indep.write_gro(p, "all end molecules", recs, [9.0, 9.0, 9.0])
+            listing.append(p)
+            shared = p
+            for nm in candidates:
+                candidates[nm]["coor_AA"].append(p)
         elif dname == "missing-coords":
             nm = "SP%d" % case["missing_of"]
             if ("copy-gro" in case["distractors"] or "same-basename-gro" in case["distractors"]) \
@@ -209,6 +230,14 @@ def build_directory(case):
                 continue
             listing.remove(triples[nm][1])
             incomplete.add(nm)
+    if shared:
+        incomplete.clear()          # a species without dedicated end coordinates can still use the shared file
+        for k in case.get("shared_only", []):
+            ded = triples["SP%d" % k][1]
+            if ded in listing:
+                listing.remove(ded)
+        for nm in candidates:
+            candidates[nm]["coor_AA"] = [p for p in candidates[nm]["coor_AA"] if p in listing]
     return {"dir": d, "inputs": inputs, "system": system, "triples": triples, "listing": listing,
             "candidates": candidates, "incomplete": incomplete, "ndistractors": ndis}
 
